@@ -733,6 +733,22 @@ class Sign(Engine):
                     ctx.check(not ok3, 'C05.other-key-fails', '%d-of-%d %s input accepted although slot signatures come from keys %r (a slot is filled by another key of the set)'
                               % (nsig, nk, tmpl, combo), combo=str(combo), **det)
                 ctx.fault('multisig-slot-reassignment')
+        # --- signatures that are well-formed DER but out of range / garbage, then the honest spend AGAIN:
+        #     a rejected signature must not leave anything behind that changes a later verdict
+        junk_sigs = [EC.der_encode(0, 1), EC.der_encode(1, 0), EC.der_encode(N, 1), EC.der_encode(1, N), EC.der_encode(N + 5, N + 7), EC.der_encode(1, 1),
+                     b'\x30\x00', b'\x30\x06\x02\x01\x00\x02\x01\x00', b'']
+        for js in junk_sigs:
+            forged = list(sigs)
+            forged[0] = js + bytes([hts[0]]) if js else b''
+            ss = self._scriptsig(base, forged, ks, redeem)
+            okj, whyj = self._verify(tx, idx, ss, spk, a['mutable'], p2sh)
+            if whyj and whyj.startswith('UNEXPECTED'):
+                ctx.check(False, 'C05.other-key-fails', 'a malformed signature made verification raise %s outside the validation-error family' % whyj, **det)
+            ctx.check(not okj, 'C05.other-key-fails', 'a signature with r or s out of range / empty was accepted for the %s input' % tmpl, **det)
+            ok_again, why_again = self._verify(tx, idx, script_sig, spk, a['mutable'], p2sh)
+            ctx.check(ok_again, 'C05.accept', 'the correctly signed %s input is rejected (%s) after a malformed signature had been checked before it'
+                      % (tmpl, why_again), why=why_again, after='malformed-signature', **det)
+            ctx.fault('malformed-signature-then-recheck')
         # --- a signature from any other key
         od = int(a['other_secret'], 16)
         if all(od != k['d'] for k in ks):
